@@ -258,6 +258,34 @@ def cached_view_history(rng, f):
     return h
 
 
+def deep_merge_history(rng, f):
+    """a source that has grown far (several levels / table doublings) merged BY REFERENCE into an empty, a tiny and a grown target of
+    the same configuration, twice in a row (the harness alternates non-const / const lvalue): a merge that takes over whole internal
+    containers of its source is only visible when the source is the deeper one - and is then used again"""
+    h = ["alloc " + rng.choice(["shared", "distinct"])]
+    l0, st0 = f.new(rng, tier="quick", oid=0)
+    cfg = l0.split(" ", 3)[3] if len(l0.split(" ", 3)) > 3 else ""
+    mk = lambda oid: ("new %s %d %s" % (f.name, oid, cfg)).rstrip()
+    h.append(mk(0))
+    for _ in range(rng.choice([60, 150, 400])):
+        h.append(f.upd(rng, 0, st0))
+    h += [mk(1), mk(2), mk(3)]
+    for _ in range(rng.choice([1, 2, 3])):
+        h.append(f.upd(rng, 2, st0))
+    for _ in range(rng.choice([20, 40])):
+        h.append(f.upd(rng, 3, st0))
+    for d in (1, 2, 3, 1):
+        h.append("merge %d 0 %s" % (d, coins(rng, 48)))
+        h.append(f.query(rng, 0) if hasattr(f, "query") else "query 0 1")
+    for _ in range(5):
+        h.append(f.upd(rng, 0, st0))
+    h.append("merge 0 3 %s" % coins(rng, 48))
+    h.append("copy 0 4")
+    for i in (0, 1, 2, 3, 4):
+        h.append("destroy %d" % i)
+    return h
+
+
 def gen_history(rng, tier, fams, nops, cut_ok=False):
     """one lifecycle history over objects of the given families (>= 3 live objects most of the time)."""
     h = ["alloc " + rng.choice(["shared", "shared", "distinct"])]
@@ -544,6 +572,8 @@ class LifePart(Part):
         for f in self.fams:
             if f.name in ("kllstr", "req", "reqstr", "quant", "quantstr"):
                 hs += [cached_view_history(rng, f) for _ in range(3 if tier == "quick" else 12)]
+            if f.merge and f.update:
+                hs += [deep_merge_history(rng, f) for _ in range(2 if tier == "quick" else 8)]
         return hs
 
     def oracle(self, hist, impl_out):
